@@ -1701,6 +1701,7 @@ class Interp:
                         post[n] = (min(lo, post[n][0]), max(hi, post[n][1]))
                     else:
                         post[n] = (lo, hi)
+            self._probe_exits = [o for o in outs if o.status == 'probe-exit']
             return sym_of, backs, post
         try:
             widened = False
@@ -1736,7 +1737,7 @@ class Interp:
                             pass
                     info = {'ranges': cur, 'no_iteration': not backs, 'reductions': []}
                     if backs:
-                        info['reductions'] = self.recognise_reductions(st, fr, places, idx, sym_of, backs, depth)
+                        info['reductions'] = self.recognise_reductions(st, fr, places, idx, sym_of, backs, depth, getattr(self, '_probe_exits', None))
                     # ranking function: an integer place that strictly decreases (or strictly increases) on EVERY back edge of
                     # one abstract iteration from the inductive head state.  In a bounded integer type that bounds the number
                     # of iterations (an overflow on the way is a panic obligation of its own).
@@ -1776,7 +1777,7 @@ class Interp:
         finally:
             self.fixpoint_depth -= 1
 
-    def recognise_reductions(self, st, fr, places, idx, sym_of, backs, depth):
+    def recognise_reductions(self, st, fr, places, idx, sym_of, backs, depth, exits=None):
         """running maximum / minimum over an iterated sequence: at every back edge the accumulator is either unchanged
         (and the element does not beat it) or the element (and the element beats it)"""
         from .models import select_term
@@ -1791,7 +1792,32 @@ class Interp:
             return []
         seq = next(iter(seqs))
         seq_len = backs[0].state.last_iter_elem[2] if len(backs[0].state.last_iter_elem) > 2 else None
-        for n in idx:
+        # a hand-written `take(n)`: a counter that goes down by one on every back edge, and the loop is left either because
+        # the iterator ran out or - before anything was accumulated in that iteration - because the counter is 0.  The loop
+        # then runs over the first n elements: sums below are over take(seq, n)
+        taken = None
+        if exits:
+            for n in idx:
+                a = sym_of.get(n)
+                if a is None:
+                    continue
+                A = Poly.atom(a)
+                try:
+                    if not all(isinstance(self.read_place(o.state, o.state.frames[depth], places[n]), Num)
+                               and self.read_place(o.state, o.state.frames[depth], places[n]).term == A - 1
+                               and o.ctx.decide(cmp_term('Ge', A, 1)) is True for o in backs):
+                        continue
+                except InterpError:
+                    continue
+                by_count = [o for o in exits if o.state.tags.get('last_next') != 'none']
+                if not by_count or not all(o.ctx.decide(cmp_term('Eq', A, 0)) is True for o in by_count):
+                    continue
+                cont, kk = self.resolve(st, fr, places[n])
+                if isinstance(cont[kk], Num):
+                    taken = (n, a, cont[kk].term, by_count)
+                    break
+        float_sums = [n for n in range(len(places)) if n not in idx and n in sym_of] if taken else []
+        for n in list(idx) + float_sums:
             a = sym_of.get(n)
             if a is None:
                 continue
@@ -1847,8 +1873,24 @@ class Interp:
                 continue
             if kind == 'sum':
                 # same normal form as Iterator::sum over the sequence (float addition order: init, then the elements in order)
-                term = init.term + t_app('sum', [seq])
+                seq_eff = seq
+                if taken is not None:
+                    if n == taken[0]:
+                        continue
+                    # the accumulator must be untouched on the paths that leave because the counter reached 0
+                    try:
+                        if not all(isinstance(self.read_place(o.state, o.state.frames[depth], places[n]), Num)
+                                   and self.read_place(o.state, o.state.frames[depth], places[n]).term == A for o in taken[3]):
+                            continue
+                    except InterpError:
+                        continue
+                    seq_eff = ('take', seq, taken[2])
+                elif exits and any(o.state.tags.get('last_next') != 'none' for o in exits):
+                    continue    # left early for a reason that is not understood: no summary
+                term = init.term + t_app('sum', [seq_eff])
                 out.append((places[n], term, init.ty))
+                continue
+            if n not in idx:
                 continue
             term = self.fold_term(kind, init.term, seq, st.ctx, seq_len)
             if term is not None:
@@ -1982,7 +2024,7 @@ class Interp:
             return EnumV(v.path, None, {}, list(range(n)), name=st.fresh_name(tag), vnames=v.vnames, targs=v.targs)
         if isinstance(v, ContV):
             nv = copy.copy(v)
-            if v.kind in ('vec_iter', 'range_iter', 'slice_iter'):
+            if v.kind in ('vec_iter', 'range_iter', 'slice_iter') or (v.kind == 'iter' and isinstance(v.term, tuple) and v.term and v.term[0] == 'oldest_ordered'):
                 nv.extra = dict(v.extra)
                 nv.extra['havocked'] = True
                 return nv
